@@ -200,6 +200,29 @@ static void notify_cb(uint32_t event, char *key, void *old_value, void *value, v
 	if (e->ev != QB_MAP_NOTIFY_FREE) PROP(val_index(value) == e->newv, "notifier: new value as prescribed");
 	if (event == QB_MAP_NOTIFY_FREE && val_index(old_value) >= 0) free_calls_for_val[val_index(old_value)]++;
 }
+static int ever_a;                   /* a key below "a" has ever been stored (trie scenario bookkeeping) */
+static int keynotif[NKEYS];          /* a per-key notifier is registered on pool key k */
+static int keycb_errors;
+static void expect_key(int32_t ev, int key, int oldv, int newv);
+static void key_cb(uint32_t event, char *key, void *old_value, void *value, void *user_data)
+{
+	/* per-key notifier: user_data = 100 + key index; expectations are tagged with key+100 */
+	int want = (int)(intptr_t)user_data;
+	PROP(want != 150, "a notifier on a never-stored prefix key is never called for other keys");
+	if (want == 150) return;
+	if (destroy_mode) {
+		PROP(event == QB_MAP_NOTIFY_DELETED && keynotif[want - 100] && present[want - 100] >= 1, "destroy: key notifier only reports the deletion of its own stored key");
+		return;
+	}
+	PROP(exp_i < exp_n, "key notifier: no callback beyond what the dictionary transition prescribes");
+	if (exp_i >= exp_n) return;
+	struct expect *e = &exp_q[exp_i++];
+	PROP(e->key == want, "key notifier: called for the key it was registered on, before the global notifier");
+	PROP((int32_t)event == e->ev, "key notifier: event kind as prescribed");
+	PROP(key_index(key) == want - 100, "key notifier: key as prescribed");
+	PROP(val_index(old_value) == e->oldv, "key notifier: old value as prescribed");
+	PROP(val_index(value) == e->newv, "key notifier: new value as prescribed");
+}
 static void expect(int32_t ev, int key, int oldv, int newv)
 {
 	exp_q[exp_n].ev = ev; exp_q[exp_n].key = key; exp_q[exp_n].oldv = oldv; exp_q[exp_n].newv = newv;
@@ -258,16 +281,23 @@ static void kf_guard(int k, int is_rm)
 static void oracle_put(int k, int v)
 {
 	if (present[k]) {
+		if (keynotif[k]) expect(QB_MAP_NOTIFY_REPLACED, k + 100, value_of[k], v);
 		expect(QB_MAP_NOTIFY_REPLACED, k, value_of[k], v);
 		expect(QB_MAP_NOTIFY_FREE, k, value_of[k], v);
 	} else {
+		if (keynotif[k]) expect(QB_MAP_NOTIFY_INSERTED, k + 100, -1, v);
 		expect(QB_MAP_NOTIFY_INSERTED, k, -1, v);
 		for (int i = 0; i < NIT; i++) if (it_open[i]) { it_ever[i][k] = 1; it_inserted[i] = 1; }
 	}
 	present[k] = 1; value_of[k] = v;
+	if (k <= 1) ever_a = 1;
 }
 static void oracle_rm(int k)
 {
+	if (keynotif[k]) expect(QB_MAP_NOTIFY_DELETED, k + 100, value_of[k], -1);
+#if IMPL != 2
+	keynotif[k] = 0;          /* hashtable/skiplist: per-key notifiers live and die with the entry's node */
+#endif
 	expect(QB_MAP_NOTIFY_DELETED, k, value_of[k], -1);
 	expect(QB_MAP_NOTIFY_FREE, k, value_of[k], -1);
 	present[k] = 0;
@@ -394,6 +424,30 @@ static void do_op(int kind, int arg, int n)
 		full_iteration(POOL[k], k);
 #endif
 		break;
+	case 11: {
+		/* register a per-key notifier on pool key k */
+#if IMPL == 2
+		if (!present[k]) break;      /* trie: registering on an absent key inserts nodes (128-entry child arrays, see POOL) */
+#endif
+		int32_t r = M_NOTIFY_ADD(m, POOL[k], key_cb,
+			QB_MAP_NOTIFY_INSERTED | QB_MAP_NOTIFY_REPLACED | QB_MAP_NOTIFY_DELETED, (void *)(intptr_t)(100 + k));
+#if IMPL == 2
+		PROP(r == 0 || r == -EEXIST, "trie: a notifier can be registered on any key");
+		if (r == 0) keynotif[k] = 1;
+#else
+		if (present[k]) { PROP(r == 0 || r == -EEXIST, "a notifier can be registered on a stored key"); if (r == 0) keynotif[k] = 1; }
+		else PROP(r != 0, "hashtable/skiplist: registering on an absent key is refused");
+#endif
+		break; }
+	case 12: {
+		/* trie: a (non-recursive) notifier on the never-stored prefix "a" must never fire for the keys below it.
+		 * Only while no key below "a" is stored: otherwise registering splits a node with the '\0' child index,
+		 * i.e. the 128-entry child arrays this harness avoids (see POOL) */
+		if (present[0] || present[1] || ever_a) break;
+		int32_t r = M_NOTIFY_ADD(m, "a", key_cb,
+			QB_MAP_NOTIFY_INSERTED | QB_MAP_NOTIFY_REPLACED | QB_MAP_NOTIFY_DELETED, (void *)(intptr_t)(100 + 50));
+		PROP(r == 0 || r == -EEXIST, "trie: a notifier can be registered on any key");
+		break; }
 	case 10: {
 		/* "a" is a prefix of stored keys but never a key itself */
 		int32_t r = M_RM(m, "a");
@@ -425,9 +479,9 @@ struct opdef { uint8_t kind, arg; };
 #endif
 static const struct opdef ALPHA[] = {
 #if ALPHABET == 17      /* C17: dictionary + notifier + complete/abandoned iteration */
-	{1,0},{1,1},{1,2},{1,3}, {3,0},{3,1},{3,2},{3,3}, {4,0}, {9,0},
+	{1,0},{1,1},{1,2},{1,3}, {3,0},{3,1},{3,2},{3,3}, {4,0}, {9,0}, {11,0},{11,1},
 #if IMPL == 2
-	{8,0},{8,1},{10,0},
+	{8,0},{8,1},{10,0},{12,0},
 #endif
 #else                    /* C18: iterators under removal/insertion (3 keys, 2 iterators) */
 	{1,0},{1,1},{1,2}, {3,0},{3,1},{3,2}, {5,0},{5,1}, {6,0},{6,1}, {7,0},{7,1},
@@ -437,7 +491,8 @@ static const struct opdef ALPHA[] = {
 
 static void reset_all(void)
 {
-	for (int i = 0; i < NKEYS; i++) { present[i] = 0; value_of[i] = 0; }
+	for (int i = 0; i < NKEYS; i++) { present[i] = 0; value_of[i] = 0; keynotif[i] = 0; }
+	ever_a = 0;
 	exp_n = exp_i = 0; destroy_mode = destroy_deleted = destroy_freed = 0;
 	for (int i = 0; i < NIT; i++) { it_open[i] = 0; it_done[i] = 0; its[i] = NULL; it_pos[i] = -1; rm_since_pos[i] = 0; }
 }
